@@ -169,7 +169,11 @@ impl<'a> Printer<'a> {
         match f {
             GF::False => "false".to_string(),
             GF::True => "true".to_string(),
-            GF::Var(n) => n.clone(),
+            // with noise, now and then between stray braces that do not hug the name: only `{name}` is a reference,
+            // any other brace is a character outside the alphabet
+            GF::Var(n) => if self.noise && self.rng.chance(1, 12) {
+                match self.rng.below(4) { 0 => format!("{{ {} }}", n), 1 => format!("{{{} }}", n), 2 => format!("{{ {}}}", n), _ => format!("{{\n {}\n}}", n) }
+            } else { n.clone() },
             GF::Not(g) => {
                 let neg = self.pick(&["-", "!", "not "]);
                 let inner = self.print(g);
@@ -643,6 +647,26 @@ pub fn c05_lang(out: &mut dyn Write, tier: &str, rng: &mut Rng, st: &mut Stats) 
         let text = Printer { rng, noise: false }.print(&gf);
         let line = eval_line("C05", &gf, &text, st);
         writeln!(out, "{}", line).unwrap();
+        // every fourth comparison also stands under a fixed point (whose evaluation substitutes into the body and
+        // rebuilds both lists): with the bound name absent from it, or as one more operand on the side on which the
+        // comparison is monotone in it
+        if rng.chance(1, 4) {
+            let x = "Xfix".to_string();
+            let body = match (&gf, rng.below(2)) {
+                (GF::CntV(op, l, r), 1) if *op != 4 => {
+                    let (mut l2, mut r2) = (l.clone(), r.clone());
+                    if *op >= 2 { l2.insert(rng.below(l2.len() as u64 + 1) as usize, GF::Var(x.clone())); }
+                    else { r2.insert(rng.below(r2.len() as u64 + 1) as usize, GF::Var(x.clone())); }
+                    GF::CntV(*op, l2, r2)
+                }
+                _ => gf.clone(),
+            };
+            let fx = GF::Fix(x, rng.chance(1, 2), Box::new(body));
+            let text = Printer { rng, noise: false }.print(&fx);
+            let line = eval_line("C05", &fx, &text, st);
+            writeln!(out, "{}", line).unwrap();
+            st.hit("lang.comparison-under-a-fixed-point");
+        }
         // the same comparison with its constant spelled in digits of another script: if the syntax accepts
         // it at all, it must be read as that number (rejecting it is fine)
         if let GF::CntC(_, _, k) = &gf {
